@@ -378,7 +378,11 @@ func C12(v *View) []Violation {
 		if st.ObservedGeneration != v.Set.Generation {
 			out = append(out, viol("C12", "observed-generation", "%s writes observedGeneration=%d, reconciled generation %d", c.ID, st.ObservedGeneration, v.Set.Generation))
 		}
-		if t, ok := c.Target.(*asv1.StatefulSet); ok && t != nil && st.ObservedGeneration < t.Status.ObservedGeneration {
+		// a stored value ahead of the object's own generation was not written by this controller for this object
+		// (helper.Upgrade copies the built-in status into a fresh object; a restore from backup): no write can both
+		// equal the reconciled generation and not be lower than it, so the monotonic clause is about values that can
+		// be the controller's own
+		if t, ok := c.Target.(*asv1.StatefulSet); ok && t != nil && st.ObservedGeneration < t.Status.ObservedGeneration && t.Status.ObservedGeneration <= t.Generation {
 			out = append(out, viol("C12", "observed-generation-regressed", "%s writes observedGeneration=%d below stored %d", c.ID, st.ObservedGeneration, t.Status.ObservedGeneration))
 		}
 		old := v.Set.Status.CurrentRevision
